@@ -1,5 +1,318 @@
-import CddVerif.Model.Doc
+import CddVerif.Proofs.Doc
+/-!
+# C01 — docstring ↔ interface round-trip
+
+What is proved here is the mechanism the statement rests on — the bijection between a typed default value and
+its "Defaults to …" prose — for **every** description in an explicit decidable domain and **every** integer /
+boolean, on the ports of `set_default_doc`, `extract_default` and `_parse_out_default_and_doc`, plus the
+quoting laws.  The whole-docstring round trip `view (parse (emit ir)) = view ir` (`C01_full`) is kept as a
+definition; it is *observed* on the real code and on the model by the harness, not proved (see DESIGN.md §4 C01).
+-/
 namespace C01
 open Py Doc
-theorem placeholder : True := trivial
+
+/-- the announce phrase looked for first by `extract_default` -/
+def ann : Str := ['d', 'e', 'f', 'a', 'u', 'l', 't', 's', ' ', 't', 'o', ' ']
+
+/-- **Domain of descriptions** (decidable): the text `b` that precedes " Defaults to …" contains no `(` and no
+    earlier (case-insensitive) occurrence of the announce phrase — also not one straddling into the emitted phrase. -/
+def GoodBase (b : Str) : Prop := '(' ∉ lower b ∧ NoEarly ann (lower b ++ [' '])
+
+/-- the full statement of C01 for ReST over the model (observed, not proved) -/
+def C01_full : Prop :=
+  ∀ (ir : IR) (et ww edd : Bool) (s : Str), emit ir .rest et ww edd = .ok s →
+    ∃ ir', parseRest s edd = .ok ir' ∧ ir'.params.map (·.1) = ir.params.map (·.1)
+
+/-! ### helper facts about the concrete strings -/
+
+theorem lower_defaultsTo : lower defaultsTo = ' ' :: ann := by decide
+theorem lower_ann : lower ann = ann := by decide
+theorem announce_head : announceVariants.head? = some ann := by decide
+
+theorem lowerC_digit (c : Char) (h : c.isDigit = true) : lowerC c = c := by
+  unfold lowerC
+  have : isAsciiUpper c = false := by
+    unfold isAsciiUpper
+    unfold Char.isDigit at h
+    simp only [Bool.and_eq_true, decide_eq_true_eq, ge_iff_le] at h
+    have h2 : c.val ≤ 57 := h.2
+    cases hb : (decide ('A' ≤ c) && decide (c ≤ 'Z')) with
+    | false => rfl
+    | true =>
+      simp only [Bool.and_eq_true, decide_eq_true_eq, Char.le_def] at hb
+      have : (65 : UInt32) ≤ c.val := hb.1
+      exact absurd (UInt32.le_trans this h2) (by decide)
+  simp [this]
+
+theorem lower_digits (s : Str) (h : ∀ c ∈ s, c.isDigit = true) : lower s = s := by
+  unfold lower
+  induction s with
+  | nil => rfl
+  | cons c cs ih =>
+    simp only [List.map_cons]
+    rw [lowerC_digit c (h c (by simp)), ih (fun d hd => h d (by simp [hd]))]
+
+theorem paren_not_digit (s : Str) (h : ∀ c ∈ s, c.isDigit = true) : '(' ∉ s := by
+  intro hm; have := h '(' hm; revert this; decide
+
+theorem locateVariant_none (line : Str) (vs : List Str) (h : ∀ v ∈ vs, find (lower line) (lower v) = none) :
+    locateVariant line vs = none := by
+  induction vs with
+  | nil => rfl
+  | cons v vs ih =>
+    unfold locateVariant
+    split
+    · exact ih (fun w hw => h w (by simp [hw]))
+    · rw [h v (by simp)]; exact ih (fun w hw => h w (by simp [hw]))
+
+/-- no parenthesised announce in a line without `(` -/
+theorem hasParenAnnounce_false (line : Str) (h : '(' ∉ lower line) : hasParenAnnounce line = false := by
+  unfold hasParenAnnounce
+  have : locateVariant line (announceVariants.map (fun v => '(' :: v)) = none := by
+    apply locateVariant_none
+    intro v hv
+    obtain ⟨w, _, rfl⟩ := List.mem_map.mp hv
+    have hl : lower ('(' :: w) = '(' :: lower w := by
+      unfold lower; simp only [List.map_cons]; congr 1
+    rw [hl]; unfold find
+    exact findFrom_none_of_head '(' (lower w) (lower line) 0 h
+  rw [this]; rfl
+
+theorem lower_append (a b : Str) : lower (a ++ b) = lower a ++ lower b := by unfold lower; simp
+
+/-- the announce phrase is located exactly where the emitter put it -/
+theorem locate_emitted (b val : Str) (hb : GoodBase b) :
+    locateVariant (b ++ defaultsTo ++ val) announceVariants = some (b.length + 1, b.length + 1 + 12) := by
+  have hvar : announceVariants = ann :: announceVariants.tail := by decide
+  rw [hvar]
+  unfold locateVariant
+  have hlen : ¬ (ann.length > (b ++ defaultsTo ++ val).length) := by
+    simp only [List.length_append]
+    have : ann.length = 12 := by decide
+    have : defaultsTo.length = 13 := by decide
+    omega
+  simp only [hlen, if_false]
+  have hl : lower (b ++ defaultsTo ++ val) = (lower b ++ [' ']) ++ ann ++ lower val := by
+    rw [lower_append, lower_append, lower_defaultsTo]; simp
+  rw [hl, lower_ann, find_append ann (lower b ++ [' ']) (lower val) (by decide) hb.2]
+  have : (lower b).length = b.length := by unfold lower; simp
+  simp only [List.length_append, List.length_cons, List.length_nil, this]
+  have : ann.length = 12 := by decide
+  rw [this]
+
+theorem drop_emitted (b val : Str) : (b ++ defaultsTo ++ val).drop (b.length + 1 + 12) = val := by
+  have : defaultsTo.length = 13 := by decide
+  rw [List.append_assoc, List.drop_append]
+  have h1 : b.length + 1 + 12 - b.length = 13 := by omega
+  rw [List.drop_of_length_le (by omega), h1, List.nil_append, List.drop_append]
+  rw [List.drop_of_length_le (by omega)]; simp [this]
+
+/-! ### the value cascade on decimal text -/
+
+theorem parse_nat_text (n : Nat) : parseDefaultText (natToStr n) none = .ok (.int n) := by
+  unfold parseDefaultText
+  simp only [Bool.false_and, Bool.false_eq_true, if_false, toDigits_isdecimal n, if_true, parseNat_natToStr]
+
+theorem natToStr_isDigit (n : Nat) : ∀ c ∈ natToStr n, c.isDigit = true := toDigits_isDigit n
+
+theorem takeDefault_nat (n : Nat) : takeDefault 0 (natToStr n) = natToStr n :=
+  takeDefault_digits 0 _ (natToStr_isDigit n)
+
+theorem natToStr_ne_nil (n : Nat) : natToStr n ≠ [] := Nat.toDigits_ne_nil
+
+/-- **Default ↔ prose, non-negative integers.** For every description base in the domain and every `n`:
+    reading back the line `"<base> Defaults to <n>"` yields the integer `n` (as an int, not a float or a string)
+    and — with `emit_default_doc=True` — the description unchanged. -/
+theorem extract_nat_roundtrip (b : Str) (n : Nat) (hb : GoodBase b) :
+    extractDefault (b ++ defaultsTo ++ natToStr n) none true = .ok (b ++ defaultsTo ++ natToStr n, some (.int n)) := by
+  unfold extractDefault
+  have hp : '(' ∉ lower (b ++ defaultsTo ++ natToStr n) := by
+    rw [lower_append, lower_append, lower_digits _ (natToStr_isDigit n)]
+    intro hm
+    simp only [List.mem_append] at hm
+    rcases hm with (h1 | h2) | h3
+    · exact hb.1 h1
+    · revert h2; rw [lower_defaultsTo]; decide
+    · exact paren_not_digit _ (natToStr_isDigit n) h3
+  rw [hasParenAnnounce_false _ hp]
+  simp only [Bool.false_eq_true, if_false]
+  rw [locate_emitted b (natToStr n) hb]
+  simp only [drop_emitted, takeDefault_nat, stripChars_digits _ (natToStr_isDigit n) (natToStr_ne_nil n), parse_nat_text, if_true]
+
+/-- **Default ↔ prose, negative integers** ("a negative number stays negative", "an int stays an int"). -/
+theorem extract_neg_roundtrip (b : Str) (n : Nat) (hb : GoodBase b) :
+    extractDefault (b ++ defaultsTo ++ ('-' :: natToStr (n + 1))) none true
+      = .ok (b ++ defaultsTo ++ ('-' :: natToStr (n + 1)), some (.int (-((n + 1 : Nat) : Int)))) := by
+  unfold extractDefault
+  have hdig := natToStr_isDigit (n + 1)
+  have hp : '(' ∉ lower (b ++ defaultsTo ++ ('-' :: natToStr (n + 1))) := by
+    rw [lower_append, lower_append]
+    have hl : lower ('-' :: natToStr (n + 1)) = '-' :: natToStr (n + 1) := by
+      have := lower_digits _ hdig
+      unfold lower at this ⊢
+      simp only [List.map_cons, this]; congr 1
+    rw [hl]
+    intro hm
+    simp only [List.mem_append, List.mem_cons] at hm
+    rcases hm with (h1 | h2) | (h3 | h4)
+    · exact hb.1 h1
+    · revert h2; rw [lower_defaultsTo]; decide
+    · revert h3; decide
+    · exact paren_not_digit _ hdig h4
+  rw [hasParenAnnounce_false _ hp]
+  simp only [Bool.false_eq_true, if_false]
+  rw [locate_emitted b _ hb]
+  have htake : takeDefault 0 ('-' :: natToStr (n + 1)) = '-' :: natToStr (n + 1) := by
+    simp only [takeDefault]
+    have : (('-' : Char) == '.') = false := by decide
+    simp only [this, Bool.false_and, Bool.false_eq_true, if_false]
+    have hbr : (('-' : Char) == '{' || ('-' : Char) == '[' || ('-' : Char) == '(' || ('-' : Char) == ')' || ('-' : Char) == ']' || ('-' : Char) == '}') = false := by decide
+    simp only [hbr, Bool.false_eq_true, if_false]
+    rw [takeDefault_digits 0 _ hdig]
+  have hstrip : stripChars ('-' :: natToStr (n + 1)) [' ', '\t', '`'] = '-' :: natToStr (n + 1) := by
+    have h2 := stripChars_digits (natToStr (n + 1)) hdig (natToStr_ne_nil _)
+    unfold stripChars lstripChars rstripChars at h2 ⊢
+    have hm : ([' ', '\t', '`'].contains '-') = false := by decide
+    simp only [List.dropWhile_cons, hm, Bool.false_eq_true, if_false]
+    -- the right strip never reaches the leading '-' because the last character is a digit
+    have hne := natToStr_ne_nil (n + 1)
+    cases hr : (natToStr (n + 1)).reverse with
+    | nil => exact absurd (by simpa using hr) hne
+    | cons y ys =>
+      have hy : y ∈ natToStr (n + 1) := by
+        have : y ∈ (natToStr (n + 1)).reverse := by rw [hr]; simp
+        simpa using this
+      have hyd : ([' ', '\t', '`'].contains y) = false := by
+        have hdy := hdig y hy
+        cases hb' : ([' ', '\t', '`'].contains y) with
+        | false => rfl
+        | true =>
+          simp only [List.contains_cons, List.contains_nil, Bool.or_false, Bool.or_eq_true, beq_iff_eq] at hb'
+          rcases hb' with rfl | rfl | rfl <;> revert hdy <;> decide
+      simp only [List.reverse_cons, hr, List.append_assoc, List.cons_append, List.nil_append, List.dropWhile_cons, hyd,
+        Bool.false_eq_true, if_false]
+      have e : natToStr (n + 1) = (y :: ys).reverse := by rw [← hr]; simp
+      rw [e]; simp
+  have hparse : parseDefaultText ('-' :: natToStr (n + 1)) none = .ok (.int (-((n + 1 : Nat) : Int))) := by
+    unfold parseDefaultText
+    have hnd : isdecimal ('-' :: natToStr (n + 1)) = false := by
+      unfold isdecimal; simp only [List.isEmpty_cons, Bool.not_false, Bool.true_and, List.all_cons]
+      have : isAsciiDigit '-' = false := by decide
+      simp [this]
+    simp only [Bool.false_and, Bool.false_eq_true, if_false, hnd, List.head?_cons, List.drop_succ_cons, List.drop_zero,
+      toDigits_isdecimal, beq_self_eq_true, Bool.true_or, Bool.true_and, if_true, parseNat_natToStr]
+  simp only [drop_emitted, htake, hstrip, hparse, if_true]
+
+/-- **Default ↔ prose, booleans** ("a bool stays a bool"). -/
+theorem extract_bool_roundtrip (b : Str) (v : Bool) (hb : GoodBase b) :
+    extractDefault (b ++ defaultsTo ++ renderVal (.bool v)) none true
+      = .ok (b ++ defaultsTo ++ renderVal (.bool v), some (.bool v)) := by
+  unfold extractDefault
+  have hp : '(' ∉ lower (b ++ defaultsTo ++ renderVal (.bool v)) := by
+    rw [lower_append, lower_append]
+    intro hm
+    simp only [List.mem_append] at hm
+    rcases hm with (h1 | h2) | h3
+    · exact hb.1 h1
+    · revert h2; rw [lower_defaultsTo]; decide
+    · cases v <;> (revert h3; decide)
+  rw [hasParenAnnounce_false _ hp]
+  simp only [Bool.false_eq_true, if_false]
+  rw [locate_emitted b _ hb]
+  simp only [drop_emitted]
+  cases v
+  · have h : parseDefaultText (stripChars (takeDefault 0 (renderVal (Default.bool false))) [' ', '\t', '`']) none
+        = .ok (.bool false) := by decide
+    simp only [h, if_true]
+  · have h : parseDefaultText (stripChars (takeDefault 0 (renderVal (Default.bool true))) [' ', '\t', '`']) none
+        = .ok (.bool true) := by decide
+    simp only [h, if_true]
+
+/-! ### emitter side: `set_default_doc` produces exactly that line -/
+
+/-- description as the emitter completes it before appending the default prose -/
+def baseOf (d : Str) : Str := match d.getLast? with
+  | some c => if c == '.' || c == ',' then d else d ++ ['.']
+  | none => d ++ ['.']
+
+/-- `set_default_doc` on an int default: `"<doc>[.] Defaults to <i>"` -/
+theorem setDefaultDoc_int (name d : Str) (typ : Option Str) (i : Int)
+    (hd : contains d "Defaults".toList = false ∧ contains d "defaults".toList = false) :
+    setDefaultDoc name { typ := typ, doc := some d, default := some (.int i) } true
+      = .ok (some (baseOf d ++ defaultsTo ++ intToStr i)) := by
+  unfold setDefaultDoc baseOf
+  simp only [hd.1, hd.2, Bool.or_self, Bool.false_and, Bool.false_eq_true, if_false, Bool.not_false, Bool.true_and, if_true,
+    Default.isPyStr, renderVal]
+  cases d.getLast? <;> rfl
+
+/-- **emit → parse of one description line, non-negative int default**: composition of the two directions. -/
+theorem setDefaultDoc_extract_int (name d : Str) (typ : Option Str) (n : Nat)
+    (hd : contains d "Defaults".toList = false ∧ contains d "defaults".toList = false) (hb : GoodBase (baseOf d)) :
+    ∃ line, setDefaultDoc name { typ := typ, doc := some d, default := some (.int n) } true = .ok (some line)
+      ∧ extractDefault line none true = .ok (line, some (.int n)) := by
+  refine ⟨baseOf d ++ defaultsTo ++ natToStr n, ?_, extract_nat_roundtrip _ n hb⟩
+  have := setDefaultDoc_int name d typ n hd
+  have e : intToStr (n : Int) = natToStr n := by
+    unfold intToStr
+    have : ¬ ((n : Int) < 0) := by omega
+    simp [this]
+  rw [e] at this; exact this
+
+/-- with `emit_default_doc=False` and a description that does not mention defaults, nothing is added:
+    the emitted text carries no default, so none can be read back or leak onto a neighbour -/
+theorem emit_no_default_when_stripped (name d : Str) (typ : Option Str) (v : Option Default)
+    (hd : contains d "Defaults".toList = false ∧ contains d "defaults".toList = false) :
+    setDefaultDoc name { typ := typ, doc := some d, default := v } false = .ok (some d) := by
+  unfold setDefaultDoc
+  simp only [hd.1, hd.2, Bool.or_self, Bool.false_and, Bool.false_eq_true, if_false, Bool.not_false, Bool.and_false]
+  cases v <;> rfl
+
+/-! ### quoting laws (also used by C08) -/
+
+/-- `unquote (quote s) = s` for a string that is not already wrapped in quotes and is non-empty -/
+theorem quote_unquote (s : Str) (hne : s ≠ [])
+    (hq : ¬ (s.length > 1 ∧ s.head? = s.getLast? ∧ (s.head? = some '\'' ∨ s.head? = some '"'))) :
+    unquote (quote s) = s := by
+  unfold quote
+  have h1 : s.isEmpty = false := by cases s with | nil => exact absurd rfl hne | cons _ _ => rfl
+  have h2 : (decide (s.length > 1) && s.head? == s.getLast? && (s.head? == some '\'' || s.head? == some '"')) = false := by
+    cases hb : (decide (s.length > 1) && s.head? == s.getLast? && (s.head? == some '\'' || s.head? == some '"')) with
+    | false => rfl
+    | true =>
+      simp only [Bool.and_eq_true, decide_eq_true_eq, beq_iff_eq, Bool.or_eq_true] at hb
+      exact absurd ⟨hb.1.1, hb.1.2, hb.2⟩ hq
+  simp only [h1, h2, Bool.or_self, Bool.false_eq_true, if_false]
+  unfold unquote
+  have hlen : (['"'] ++ s ++ ['"']).length > 1 := by simp
+  have hh : (['"'] ++ s ++ ['"']).head? = some '"' := by simp
+  have hl : (['"'] ++ s ++ ['"']).getLast? = some '"' := by simp [List.getLast?_cons, List.getLast?_append]
+  simp only [hlen, hh, hl, decide_true, beq_self_eq_true, Bool.and_self, Bool.true_or, if_true]
+  simp
+
+/-- quoting is idempotent: a quoted string is left alone -/
+theorem unquote_quote_idem (s : Str) : quote (quote s) = quote s := by
+  unfold quote
+  split
+  · rename_i h; simp only [h, if_true]
+  · have hlen : (['"'] ++ s ++ ['"']).length > 1 := by simp
+    have hh : (['"'] ++ s ++ ['"']).head? = some '"' := by simp
+    have hl : (['"'] ++ s ++ ['"']).getLast? = some '"' := by simp [List.getLast?_cons, List.getLast?_append]
+    simp only [hlen, hh, hl, decide_true, beq_self_eq_true, Bool.and_self, Bool.or_true, Bool.true_and, if_true]
+
+/-! ### non-vacuity -/
+example : GoodBase ['t', 'h', 'e', ' ', 'x', '.'] := by
+  constructor
+  · decide
+  · intro k hk
+    have : k < 7 := by
+      have h7 : (lower ['t', 'h', 'e', ' ', 'x', '.'] ++ [' ']).length = 7 := by decide
+      omega
+    match k, this with
+    | 0, _ => decide | 1, _ => decide | 2, _ => decide | 3, _ => decide | 4, _ => decide | 5, _ => decide | 6, _ => decide
+/-- a description that already talks about defaults is outside the domain (and outside the statement's) -/
+example : ¬ GoodBase "see defaults to x.".toList := by
+  intro h
+  have := h.2 4 (by decide)
+  revert this; decide
+
 end C01
